@@ -12,7 +12,11 @@ What is read (every item aborts with ANCHOR NOT FOUND when its shape is not reco
     of an unknown if-<name>,
   * the alignment characters of charToAlignment and of the two "<^>" membership tests,
     the '!' suffix, the default fill,
-  * the statements of applyPadding that decide which side is kept/padded (left/right/centre split).
+  * the statements of applyPadding that decide which side is kept/padded (left/right/centre split),
+  * (round 8) the fluent front ends SimplePipeline::format(const QString &pattern) and formatByQt() of simplepipeline.cpp:
+    the chain `if (pattern == "<name>") append(<object>); else ... else append(<object>); return *this;` - which names
+    have a meaning of their own, and for every branch which class is created from which argument (the caller's pattern
+    handed on unchanged / a constant of messagepatterns.h / nothing); DefaultMessagePattern of messagepatterns.h.
 """
 import re
 from .common import rd, need, fn_body, strip_comments, AnchorError, HDR
@@ -43,10 +47,87 @@ def sq(s):
     return re.sub(r'\s+', ' ', s)
 
 
+def c_string_constant(hdr, name):
+    """text of `constexpr char <name>[] = "..." "...";` (adjacent literals concatenated; escapes are not translated)"""
+    m = need(re.search(r'constexpr char %s\[\] = ((?:"[^"\\]*"\s*)+);' % re.escape(name), hdr), 'messagepatterns.h: constexpr char %s[] = "..."' % name)
+    return ''.join(re.findall(r'"([^"]*)"', m.group(1)))
+
+
+def front_target(expr, consts):
+    """one `append(<expr>)` of a front-end method -> (class, argument, constant text) as Coq text.
+    class: 0 PatternFormatterPtr::create, 1 QtLogMessageFormatter::instance(), 2 PrettyFormatterPtr::create;
+    argument: 0 none, 1 the caller's pattern unchanged, 2 a constant text, 3 the caller's pattern .trimmed(),
+              4 a function-local static object created from the caller's pattern by the first call"""
+    expr = expr.strip()
+    if expr == 'PatternFormatterPtr::create(pattern)':
+        return '(0, 1, [])'
+    if expr == 'PatternFormatterPtr::create(pattern.trimmed())':
+        return '(0, 3, [])'
+    if expr == 'PatternFormatterPtr::create()':
+        return '(0, 0, [])'
+    m = re.fullmatch(r'PatternFormatterPtr::create\((\w+)\)', expr)
+    if m and m.group(1) in consts:
+        return '(0, 2, %s)' % cl(consts[m.group(1)])
+    m = re.fullmatch(r'PatternFormatterPtr::create\((?:QStringLiteral|QLatin1String|QString)?\(?"([^"\\]*)"\)?\)', expr)
+    if m:
+        return '(0, 2, %s)' % cl(m.group(1))
+    if expr == 'QtLogMessageFormatter::instance()':
+        return '(1, 0, [])'
+    if expr == 'PrettyFormatterPtr::create()':
+        return '(2, 0, [])'
+    raise AnchorError('ANCHOR NOT FOUND: SimplePipeline front end: append(%s) is not a recognised way to obtain the formatter object' % expr[:120])
+
+
+def front_ends():
+    """SimplePipeline::format(const QString &pattern) / formatByQt() -> Coq text (round 8)"""
+    hdr = strip_comments(rd('messagepatterns.h'))
+    consts = {n: c_string_constant(hdr, n) for n in ('DefaultMessagePattern', 'PrettyMessagePattern')}
+    sp = strip_comments(rd('simplepipeline.cpp'))
+    m = need(re.search(r'SimplePipeline &SimplePipeline::format\(const QString &pattern\)', sp), 'SimplePipeline::format(const QString &pattern)')
+    body = sq(fn_body(sp[m.start():], 'SimplePipeline::format')).strip()
+    named, rest = [], body
+    while True:
+        b = re.match(r'if \(pattern == (?:QStringLiteral\(|QLatin1String\()?"([^"\\]*)"\)?\) (\{ )?append\(([^;]*)\);(?(2) \}) else ', rest)
+        if not b:
+            break
+        named.append((b.group(1), front_target(b.group(3), consts)))
+        rest = rest[b.end():]
+    e = re.fullmatch(r'(\{ )?append\(([^;]*)\);(?(1) \}) return \*this;', rest)
+    if e:
+        otherwise = front_target(e.group(2), consts)
+    else:
+        e = re.fullmatch(r'(\{ )?static (?:const )?(?:auto|PatternFormatterPtr) (\w+) = PatternFormatterPtr::create\(pattern\); append\(\2\);(?(1) \}) return \*this;', rest)
+        if not e:
+            raise AnchorError('ANCHOR NOT FOUND: SimplePipeline::format(const QString &pattern): [if (pattern == "<name>") append(<object>); else]* '
+                              'append(PatternFormatterPtr::create(pattern)); return *this;  (unrecognised from %r)' % rest[:200])
+        otherwise = '(0, 4, [])'
+    need(re.search(r'SimplePipeline &format\(const QString &pattern\);', sq(strip_comments(rd('simplepipeline.h')))), 'SimplePipeline::format(const QString &pattern) declaration')
+    q = sq(fn_body(sp, 'SimplePipeline::formatByQt')).strip()
+    e = re.fullmatch(r'append\(([^;]*)\); return \*this;', q)
+    if not e:
+        raise AnchorError('ANCHOR NOT FOUND: SimplePipeline::formatByQt: append(QtLogMessageFormatter::instance()); return *this;  (got %r)' % q[:200])
+    by_qt = front_target(e.group(1), consts)
+    # the PatternFormatter constructor hands its argument to the tokeniser unchanged
+    pc = sq(strip_comments(rd('formatters/patternformatter.cpp')))
+    need(re.search(r'PatternFormatter::PatternFormatter\(const QString &pattern\) : d\(new PatternFormatterPrivate\(pattern\)\) \{ \}', pc) and
+         re.search(r'explicit PatternFormatterPrivate\(const QString &pattern\) : m_pattern\(pattern\) \{ parsePattern\(\); \}', pc),
+         'PatternFormatter(const QString &pattern) : d(new PatternFormatterPrivate(pattern)); PatternFormatterPrivate(pattern) : m_pattern(pattern) { parsePattern(); }')
+    out = '(* front ends of simplepipeline.cpp (round 8).  One entry per way to obtain the formatter object: (class, argument, constant text);\n'
+    out += '   class 0 = PatternFormatterPtr::create, 1 = QtLogMessageFormatter::instance(), 2 = PrettyFormatterPtr::create;\n'
+    out += '   argument 0 = none, 1 = the caller\'s pattern unchanged, 2 = the constant text, 3 = the caller\'s pattern .trimmed(),\n'
+    out += '   4 = ONE function-local static object made from the pattern of the first call *)\n'
+    out += 'Definition src_default_message_pattern : list N := %s. (* DefaultMessagePattern = "%s" *)\n' % (cl(consts['DefaultMessagePattern']), consts['DefaultMessagePattern'])
+    out += '(* SimplePipeline::format(const QString &pattern): if (pattern == "<name>") append(...) else ... *)\n'
+    out += 'Definition src_front_named : list (list N * (N * N * list N)) := [%s].\n' % '; '.join('(%s (* "%s" *), %s)' % (cl(n), n, t) for n, t in named)
+    out += 'Definition src_front_otherwise : N * N * list N := %s.\n' % otherwise
+    out += '(* SimplePipeline::formatByQt() *)\nDefinition src_front_by_qt : N * N * list N := %s.\n' % by_qt
+    return out
+
+
 def generate():
     raw = rd('formatters/patternformatter.cpp')
     s = strip_comments(raw)
-    out = HDR % 'src/qtlogger/formatters/patternformatter.cpp, src/qtlogger/logmessage.h'
+    out = HDR % 'src/qtlogger/formatters/patternformatter.cpp, src/qtlogger/logmessage.h, src/qtlogger/simplepipeline.cpp, src/qtlogger/messagepatterns.h'
     out += 'From Coq Require Import List NArith.\nImport ListNotations.\nLocal Open Scope N_scope.\n'
 
     # ---- removal marker: in band or out of band
@@ -195,4 +276,5 @@ def generate():
                    r'case Alignment::Center: \{ int leftPad = padding / 2; int rightPad = padding - leftPad; '
                    r'result\.append\(QString\(leftPad, m_spec\.fill\)\); result\.append\(val\); result\.append\(QString\(rightPad, m_spec\.fill\)\); break; \}', ap),
          'applyPadding: left / right / centre padding')
+    out += front_ends()
     return {'SrcPattern.v': out}
